@@ -1,6 +1,7 @@
 (* C14: what the content builders hand to PrettyTable, metric accumulation over any call
    sequence, placement and titles, alt-text default, one call with several items = one call per item. *)
-From Skv Require Import PyStr PyStrFacts CardStr Path PathFacts Json Tree TreeFacts Ops Render Spec OpsFacts RenderFacts.
+From Skv Require Import PyStr PyStrFacts CardStr Path PathFacts Json Tree TreeFacts Ops Render Spec OpsFacts RenderFacts
+                        ModelPlot ModelPlotFacts.
 From Coq Require Import Lia.
 Open Scope N_scope.
 
@@ -219,6 +220,44 @@ Proof.
   eexists. split; [reflexivity|]. rewrite subs_set_subs. repeat split; destruct (lookup _ _); reflexivity.
 Qed.
 
+(* add_model_plot: a plain text section (visible, not folded) under the last path part; its content is the
+   description rule applied to the processed HTML (ModelPlot.v); old subsections are kept *)
+Theorem placement_model_plot sect desc html c :
+  let c' := fst (run_op (OAddModelPlot sect desc html) c) in
+  exists x, lookup (split_names sect) (data c') = Some x
+    /\ title x = last (split_names sect) []
+    /\ content x = model_plot_content desc html
+    /\ visible x = true
+    /\ folded x = false
+    /\ skind x = KText
+    /\ subs x = match lookup (split_names sect) (data c) with Some old => subs old | None => [] end
+    /\ metrics c' = metrics c.
+Proof.
+  cbn zeta. cbn [run_op fst data set_data]. rewrite add_single_lookup. eexists. split; [reflexivity|].
+  rewrite subs_set_subs. repeat split; destruct (lookup _ _); reflexivity.
+Qed.
+
+Lemma run_card_app ops1 ops2 c0 : run_card (ops1 ++ ops2) c0 = run_card ops2 (run_card ops1 c0).
+Proof.
+  revert c0; induction ops1 as [|o ops1 IH]; intros c0; [reflexivity|].
+  cbn [app]. rewrite !run_card_cons. apply IH.
+Qed.
+
+(* ... the same after ANY history *)
+Theorem model_plot_after_history ops sect desc html :
+  let c0 := run_card ops empty_card in
+  let c := run_card (ops ++ [OAddModelPlot sect desc html]) empty_card in
+  exists x, lookup (split_names sect) (data c) = Some x
+    /\ shallow_of x = (last (split_names sect) [], model_plot_content desc html, true, false, KText)
+    /\ subs x = match lookup (split_names sect) (data c0) with Some old => subs old | None => [] end.
+Proof.
+  cbn zeta. rewrite run_card_app. set (c0 := run_card ops empty_card).
+  rewrite run_card_cons. change (run_card [] ?c) with c.
+  destruct (placement_model_plot sect desc html c0) as [x [H1 [H2 [H3 [H4 [H5 [H6 [H7 _]]]]]]]]. cbn zeta in H1.
+  exists x. split; [exact H1|]. split; [|exact H7].
+  unfold shallow_of. rewrite H2, H3, H4, H5, H6. reflexivity.
+Qed.
+
 (* C14_alt_default: EVERY plot written by one call without alt text carries its own title *)
 Theorem alt_default desc fold kvs :
   Forall (fun a => match a with
@@ -305,13 +344,14 @@ Definition action_titled (a : action) : Prop :=
 
 Lemma op_actions_titled o m : no_retitle [o] = true -> Forall action_titled (op_actions o m).
 Proof.
-  destruct o as [fold kvs|desc alt fold kvs|desc fold kvs|sect desc kvs|sect desc params|key|ks|key|names|ks b|ks b|ks t];
+  destruct o as [fold kvs|desc alt fold kvs|desc fold kvs|sect desc kvs|sect desc params|sect desc html|key|ks|key|names|ks b|ks b|ks t];
     cbn [op_actions no_retitle forallb andb]; intros Hnr.
   - induction kvs as [|kv kvs IH]; cbn [map]; constructor; [split; reflexivity | exact IH].
   - induction kvs as [|[key path] kvs IH]; cbn [plot_actions]; [constructor|].
     destruct (is_empty path); constructor; [split; reflexivity | exact IH].
   - induction kvs as [|[key t] kvs IH]; cbn [table_actions]; [constructor|].
     destruct t; constructor; [split; reflexivity | exact IH].
+  - constructor; [split; reflexivity | constructor].
   - constructor; [split; reflexivity | constructor].
   - constructor; [split; reflexivity | constructor].
   - constructor.
@@ -438,3 +478,16 @@ Lemma metrics_example :
                     empty_card in
   metrics c = [(of_ascii "acc", of_ascii "0.75"); (of_ascii "f1", of_ascii "x"); (of_ascii "auc", of_ascii "1")].
 Proof. vm_compute. reflexivity. Qed.
+
+(* add_model_plot on a path whose section already has a subsection: heading = last part, style attribute added
+   (one occurrence), indentation removed, description in front, the subsection kept *)
+Lemma model_plot_example :
+  let c := run_card [ OAdd false [(of_ascii "Model description/Training Procedure/Model Plot/Note", of_ascii "n")];
+                      OAddModelPlot (of_ascii "Model description/Training Procedure/Model Plot") (Some (of_ascii "The model")) demo_html ]
+                    empty_card in
+  exists x, lookup [of_ascii "Model description"; of_ascii "Training Procedure"; of_ascii "Model Plot"] (data c) = Some x
+    /\ title x = of_ascii "Model Plot"
+    /\ content x = of_ascii "The model" ++ [10; 10]
+                   ++ of_ascii "<div class=""sk-top-container"" style=""overflow: auto;""><p>x </p></div>" ++ [10]
+    /\ keys (subs x) = [of_ascii "Note"].
+Proof. eexists. split; [vm_compute; reflexivity|]. repeat split. Qed.
